@@ -197,6 +197,19 @@ func (o *orC08) onIterLeave(it *iterRec) {
 			}
 			delete(o.mustFenceRun, it.inc)
 			// escalation: read-only blocked by commits hanging on ACKs
+			// read-only blocked by application sessions (not by commits waiting for an ACK): the
+			// sessions are cut and the node is read-only by the end of that very iteration
+			if fenceLockWait && !fenceOK && lsv != nil && len(lsv.Blockers) > 0 && len(lsv.waiters) == 0 && it.faults == 0 {
+				killed := false
+				for _, e := range it.sql {
+					if e.Src == it.inc && e.Kind == "kill" {
+						killed = true
+					}
+				}
+				if !killed {
+					m.violate("C08", "sessions_not_cut", "blocking-sessions-not-cut-when-read-only-timed-out", fmt.Sprintf("%s: read-only on %s failed with lock wait timeout behind %d application session(s), the iteration ended without a KILL and the node is still writable", it.inc, L, len(lsv.Blockers)))
+				}
+			}
 			if fenceLockWait && !fenceOK && lsv != nil && len(lsv.waiters) > 0 && after.isMaster && it.faults == 0 && !escalated {
 				m.violate("C08", "no_escalation", "stuck-commits-not-cut-when-fencing-failed", fmt.Sprintf("%s: read-only on %s failed with lock wait timeout while %d commits wait for semi-sync ACK, but sessions were not cut (no offline_mode=ON)", it.inc, L, len(lsv.waiters)))
 			}
